@@ -841,6 +841,8 @@ def fs_scripts(seed, n):
         "shapeu set:a+,b+:N;failu:a:1;set:b+:N;poke", "shapeu2 set:a+,b+:N;failu:a:2;failu:b:s;set::N;poke",
         "konly set:a+:N;hookk:b:P;set:a+,b+:N;poke", "konly2 set:a+,b-:N;kind:P;poke;kind:N;kind:P;poke", "konly3 hookk:a:P;set:a+:N;poke;hookk:a:N;set:a-:P;poke",
         # … and nothing after it: no later notification heals a kind change that was lost
+        # a kind change landing inside the creation of the watcher itself (oracle only)
+        "knew1 hookn:P;set:a+:N", "knew2 set:a+:N;hookn:N;set:a+,b-:P", "knew3 set:a+:N;hookn:N;kind:P;poke", "knew4 hookn:P;set:a+,b+:N;set:a+:N;poke", "knew5 set:a-:P;hookn:P;kind:N",
         "konly4 set:a+:N;hookk:b:P;set:a+,b+:N", "konly5 hookk:a:P;set:a+,b-:N", "konly6 set:a+:P;failw:b;hookk:b:N;set:a+,b+:P",
         "nest set:a+,a.x-:N;set:a.x-:N;set:a+,a.x+,a.x.y-:P;poke", "nest2 set:a.x.y+:N;set:a+,a.x.y+:N;set:a+:N;poke",
     ]
@@ -956,7 +958,8 @@ def c13_streams(ctx):
     s.evaluations = len(scripts)
     for i, (c, mo) in enumerate(zip(scripts, model)):
         im = impl[c]
-        if im != mo: s.disagreements.append((i, c, im, mo) if len(s.disagreements) < 40 else (i, "", "", ""))
+        # (scripts with `hookn:` — a kind change made from inside the watcher's CREATION — are outside the model: judged by the oracle only)
+        if im != mo and "hookn:" not in c: s.disagreements.append((i, c, im, mo) if len(s.disagreements) < 40 else (i, "", "", ""))
         w = fs_oracle(c, im.split(" ", 1)[1] if " " in im else im, conf[c])
         if w: s.oracle_failures.append((i, c, im, w))
         for key in ("hook:", "failw", "failu", ":P", "set::"):
@@ -1750,7 +1753,11 @@ def c05_oracle(case, trace):
         if o.startswith("a:"): now += int(o[2:])
         elif o in ("chg", "init") or o.startswith("mix:"): last_chg = now
     final = int(ops.split(";")[-1][2:])
-    ends_soon = all(b[0] == "E" and int(b[1:]) <= 200 for b in behs.split(","))
+    # queue mode: the follow-up run starts when the run that is CURRENT at the last change has ended; only the runs started before that change
+    # have to end by themselves soon (what the follow-up run itself does afterwards is irrelevant)
+    bl = behs.split(",")
+    nbefore = max(1, sum(1 for p in ev if p[1] == "spawn" and last_chg is not None and int(p[0]) <= last_chg))
+    ends_soon = all((bl[i] if i < len(bl) else bl[-1])[0] == "E" and int((bl[i] if i < len(bl) else bl[-1])[1:]) <= 300 for i in range(nbefore))
     tmo = 10000
     for f in fl:
         if f.startswith("--stop-timeout="): tmo = int(f.split("=")[1][:-2])
